@@ -7,8 +7,8 @@ SPEC = dict(
     harness=['h_str.c'],
     # second configuration: counts/capacities near the top of the index type against a ledger allocator (harness/h_huge.c)
     configs=lambda tier: [dict(name='default'), dict(name='huge', harness=['h_huge.c'], hflags=['-DVF_HUGE=6'], nworkers=2),
-                          dict(name='clang', libcc='clang', nworkers=4, of=8)],  # library compiled by clang: half of the cases
-    parallel_configs=3,
+                          dict(name='clang', libcc='clang', nworkers=4, of=8), dict(name='o2', libflavour='san-o2', libdrop=['-fno-strict-aliasing'], nworkers=4, of=8)],  # library compiled by clang: half of the cases
+    parallel_configs=4,
     level='exploration',
     memcheck_cases={'thorough': 1600},
     rule='seeded histories of 30-70 operations on two string objects: all append forms (catc/catn/cats/cat and their non-terminating _ twins, catf and '
